@@ -196,3 +196,47 @@ case("c20-global-counter", "C20", "py_ecc/bls/hash.py", "def sha256(x: bytes) ->
 case("c20-twin-local-copy", "C20", SWU, "    etas = ETAS\n", "    etas = list(ETAS)\n    etas.reverse()\n    etas.reverse()\n", expect="silent")
 case("c20-twin-helper-fills-fresh", "C20", "py_ecc/bls/hash.py", "def sha256(x: bytes) -> bytes:\n    return hashlib.sha256(x).digest()",
      "def _push(buf: list, v: bytes) -> None:\n    buf.append(v)\n\n\ndef sha256(x: bytes) -> bytes:\n    acc: list = []\n    _push(acc, hashlib.sha256(x).digest())\n    return acc[0]", expect="silent")
+
+OC_BLS = "py_ecc/optimized_bls12_381/optimized_curve.py"
+OC_BN = "py_ecc/optimized_bn128/optimized_curve.py"
+OP_BN = "py_ecc/optimized_bn128/optimized_pairing.py"
+SECP = "py_ecc/secp256k1/secp256k1.py"
+# ---------------------------------------------------------------- C13
+case("c13-add-W-z1z1", "C13", OC_BLS, "    W = z1 * z2\n", "    W = z1 * z1\n", rule="C13.R1")
+case("c13-add-dispatch-weakened", "C13", OC_BN, "    if V1 == V2 and U1 == U2:\n        return double(p1)\n    elif V1 == V2:\n        return (one, one, zero)",
+     "    if V1 == V2:\n        return double(p1)")
+case("c13-add-identity-wrong-operand", "C13", OC_BLS, "        return p1 if p2[2] == zero else p2", "        return p2 if p2[2] == zero else p1")
+case("c13-double-coefficient", "C13", OC_BN, "    newy = W * (4 * B - H) - 8 * y * y * S_squared", "    newy = W * (4 * B - H) - 4 * y * y * S_squared")
+case("c13-double-newz", "C13", OC_BLS, "    newz = 8 * S * S_squared", "    newz = 8 * S_squared")
+case("c13-neg-x", "C13", OC_BLS, "    return (x, -y, z)", "    return (-x, y, z)")
+case("c13-eq-no-inf-check", "C13", OC_BLS, "    if is_inf(p1) or is_inf(p2):\n        return is_inf(p1) and is_inf(p2)\n", "", rule="C13.R2")
+case("c13-oncurve-wrong-hom", "C13", OC_BN, "    return y**2 * z - x**3 == b * z**3", "    return y**2 * z - x**3 == b * z**2")
+case("c13-inverse-returns-garbage", "C13", OC_BN, "        return (one, one, zero)", "        return (one, one, one)")
+case("c13-linefunc-tangent-den", "C13", OPAIR, "        m_denominator = 2 * y1 * z1\n", "        m_denominator = 2 * y1\n", rule="C13.R3")
+case("c13-linefunc-vertical", "C13", OP_BN, "        return xt * z1 - x1 * zt, z1 * zt", "        return xt * z1 - x1 * zt, z1")
+case("c13-jacdouble-M", "C13", SECP, "    M = (3 * p[0] ** 2 + A * p[2] ** 4) % P", "    M = (3 * p[0] ** 2 + A * p[2] ** 2 + p[2] - p[2]) % P", expect="silent")
+case("c13-jacdouble-S", "C13", SECP, "    S = (4 * p[0] * ysq) % P", "    S = (2 * p[0] * ysq) % P", rule="C13.R4")
+case("c13-jacadd-U-unreduced", "C13", SECP, "    U1 = (p[0] * q[2] ** 2) % P", "    U1 = p[0] * q[2] ** 2", rule="C13.R4")
+case("c13-jacadd-nz", "C13", SECP, "    nz = (H * p[2] * q[2]) % P", "    nz = (H * p[2] * p[2]) % P")
+case("c13-jacadd-inverse-dispatch", "C13", SECP, "        if S1 != S2:\n            return cast(\"PlainPoint3D\", (0, 0, 1))\n        return jacobian_double(p)", "        return jacobian_double(p)")
+case("c13-fromjac-cube", "C13", SECP, "(p[1] * z**3) % P))", "(p[1] * z**2) % P))")
+case("c13-twin-reassoc", "C13", OC_BLS, "    A = U * U * W - V_cubed - 2 * V_squared_times_V2", "    A = W * (U * U) - (V_cubed + V_squared_times_V2 + V_squared_times_V2)", expect="silent")
+case("c13-twin-pow", "C13", OC_BN, "    W = 3 * x * x\n", "    W = 3 * x**2\n", expect="silent")
+case("c13-twin-neq", "C13", OC_BN, "    if V1 == V2 and U1 == U2:", "    if not V1 != V2 and not U1 != U2:", expect="silent")
+case("c13-twin-helper", "C13", OC_BLS, "    V_squared = V * V\n", "    V_squared = _sq(V)\n", expect="silent",
+     more=[(OC_BLS, "# Elliptic curve addition\ndef add(", "def _sq(v):\n    return v * v\n\n\n# Elliptic curve addition\ndef add(", 1)])
+
+# ---------------------------------------------------------------- C18
+case("c18-mul-no-negative", "C18", SECP, "    if n < 0 or n >= N:", "    if n >= N:", rule="C18.R2")
+case("c18-mul-mod-P", "C18", SECP, "        return jacobian_multiply(a, n % N)", "        return jacobian_multiply(a, n % P)", rule="C18.R2")
+case("c18-mul-no-zero-base", "C18", SECP, "    if a[1] == 0 or n == 0:", "    if a[1] == 0:")
+case("c18-mul-odd-no-add", "C18", SECP, "        return jacobian_add(jacobian_double(jacobian_multiply(a, n // 2)), a)", "        return jacobian_double(jacobian_multiply(a, n // 2))")
+case("c18-mul-halves-wrong", "C18", SECP, "        return jacobian_double(jacobian_multiply(a, n // 2))", "        return jacobian_double(jacobian_multiply(a, n // 2 + 1))")
+case("c18-const-B", "C18", SECP, "B = 7\n", "B = 5\n")
+case("c18-const-N", "C18", SECP, "N = 115792089237316195423570985008687907852837564279074904382605163141518161494337", "N = 115792089237316195423570985008687907852837564279074904382605163141518161494339")
+case("c18-bytes-to-int-little", "C18", SECP, "        o = (o << 8) + safe_ord(b)", "        o = (o >> 8) + (safe_ord(b) << 248)")
+case("c18-privtopub-swapped", "C18", SECP, "    return multiply(G, bytes_to_int(privkey))", "    return multiply(G, bytes_to_int(privkey[::-1]))")
+case("c18-add-wrapper-no-conv", "C18", SECP, "    return from_jacobian(jacobian_add(to_jacobian(a), to_jacobian(b)))", "    return from_jacobian(jacobian_add(to_jacobian(a), to_jacobian(a)))")
+case("c18-twin-ge-gt", "C18", SECP, "    if n < 0 or n >= N:", "    if n < 0 or n > N:", expect="silent")
+case("c18-twin-mul256", "C18", SECP, "        o = (o << 8) + safe_ord(b)", "        o = o * 256 + safe_ord(b)", expect="silent")
+case("c18-twin-parity-and", "C18", SECP, "    if (n % 2) == 0:", "    if (n & 1) == 0:", expect="silent", more=[(SECP, "    if (n % 2) == 1:", "    if (n & 1) == 1:", 1)])
